@@ -285,14 +285,18 @@ struct Session {
   unsigned next_id;
   bool ignore;
   bool dying;
+  bool in_start;   // inside Start*Discovery(): a callback that runs now belongs to a refused Start
   vector<string> log;     // calls, starts, aborts, events in order
   vector<string> events;
-  Session() : agent(NULL), next_id(0), ignore(false), dying(false) {}
+  Session() : agent(NULL), next_id(0), ignore(false), dying(false), in_start(false) {}
   void Start(bool inc, char act) {
     StartCb *cb = new StartCb();   // kept alive for the whole case (a seeded change may never run it)
     cb->sess = this; cb->id = next_id++; cb->act = act;
     DiscoveryAgent::DiscoveryCompleteCallback *c = ola::NewSingleCallback(cb, &StartCb::Done);
+    bool outer = in_start;
+    in_start = true;
     if (inc) agent->StartIncrementalDiscovery(c); else agent->StartFullDiscovery(c);
+    in_start = outer;
   }
 };
 void StartCb::Done(bool st, const UIDSet &set) {
@@ -309,6 +313,8 @@ void StartCb::Done(bool st, const UIDSet &set) {
   sess->events.push_back(o.str());
   sess->log.push_back(o.str());
   if (sess->dying) return;
+  // Abort() from inside the completion callback of a finished or aborted run: nothing is running any more
+  if (act == 'a' && !sess->in_start) sess->agent->Abort();
   if (act == 'f') sess->Start(false, 'n');
   else if (act == 'i') sess->Start(true, 'n');
 }
